@@ -105,6 +105,10 @@ def cases(tier, seed):
                     if cut < len(items[i][1]):
                         yield {'conv': name, 'fault': 'silence-after-partial-pdu', 'at': i, 'cut': cut, 'mpl': mpl}
             yield {'conv': name, 'fault': 'chatter', 'at': i}
+        # the operating system reports an error from close() (armed at the start of the conversation and before its last step: the
+        # provider closes once): the connection is released all the same and the provider has to end up idle
+        for i in sorted({0, max(len(items) - 1, 0)}):
+            yield {'conv': name, 'fault': 'close-reports-error', 'at': i}
 
 
 def domain(tier):
@@ -179,6 +183,11 @@ def run_case(case):
             # than ARTIM: from the first of them on (at the latest) the provider is in Sta13, where nothing restarts the timer
             hist += [('tick', 1.0), ('bytes', e2.unknown_pdu()), ('tick', 4.0), ('bytes', e2.std_rq()), ('tick', 4.0), ('bytes', e2.unknown_pdu()),
                      ('tick', 2.5)]
+        elif fault == 'close-reports-error':
+            hist.append(('close-error',))
+            for k, p, ri in items[at:]:
+                hist.append((k, p) if k in ('bytes', 'user') else ('close',))
+            hist += [('tick', 4.0), ('tick', 4.0), ('tick', 2.5)]
         elif fault == 'local-error':
             # the local user hands over a primitive that cannot be encoded (abort reason 300): whatever the loop does with the
             # error, the provider must end up stopped - exit event set (kill() returns), transport released
@@ -251,6 +260,10 @@ def run_case(case):
         if armed and (fin['state'] != 0 or fin['sock'] == 'open' or fin['timer']):
             viol.append((sig + ':artim-not-honoured', 'ARTIM armed; the peer sent the first %d bytes of a PDU and then stayed silent for 10.5 s: provider in Sta%d, '
                          'transport %s, timer %s (%s)' % (case['cut'], fin['state'] + 1, fin['sock'], 'running' if fin['timer'] else 'not running', where)))
+    elif fault == 'close-reports-error':
+        if fin['state'] != 0 or fin['sock'] == 'open' or fin['timer']:
+            viol.append((sig + ':not-idle', 'the conversation ran to its end (and 10.5 s more), close() reported an error: provider in Sta%d, transport %s, ARTIM %s (%s)' % (
+                fin['state'] + 1, fin['sock'], 'running' if fin['timer'] else 'stopped', where)))
     elif fault == 'chatter':
         armed = _model_armed(role, hist[:-7])
         if armed and (fin['state'] != 0 or fin['sock'] == 'open' or fin['timer']):
